@@ -7,7 +7,7 @@ import sys
 import io
 import contextlib
 
-from . import core
+from . import core, session
 
 
 class CallTimeout(BaseException):
@@ -18,11 +18,16 @@ def _alarm(signum, frame):
     raise CallTimeout()
 
 
+SESSION = dict(reuse=False, abort=False)
+
+
 def _init():
     os.environ["BCTPY_VERIF"] = "1"
     if core.REPO not in sys.path:
         sys.path.insert(0, core.REPO)
     signal.signal(signal.SIGALRM, _alarm)
+    if not os.environ.get("VERIF_NO_SESSION"):
+        session.install(**SESSION)
 
 
 def _run(args):
@@ -36,13 +41,19 @@ def _run(args):
         rec = dict(fn=job.get("fn", "?"), timeout=1)
     finally:
         signal.setitimer(signal.ITIMER_REAL, 0)
+    if not os.environ.get("VERIF_NO_SESSION"):
+        flags = session.end_of_job(job)
+        if flags and isinstance(rec, dict):
+            rec["session_flags"] = flags
     return rec
 
 
-def run_jobs(modname, jobs, limit=20.0, procs=None):
+def run_jobs(modname, jobs, limit=20.0, procs=None, reuse=False, abort=False):
     """exec_job(job) -> record for every job, in order.  A call that exceeds
-    `limit` seconds yields {'timeout': 1} (inconclusive, never a violation)."""
+    `limit` seconds yields {'timeout': 1} (inconclusive, never a violation).
+    reuse / abort: the opt-in call-sequence probes of harness/session.py."""
     procs = procs or core.NCPU
+    SESSION.update(reuse=reuse, abort=abort)
     os.environ["BCTPY_VERIF"] = "1"
     os.environ.setdefault("PYTHONHASHSEED", "0")
     if len(jobs) <= 2 or procs == 1:
